@@ -49,7 +49,8 @@ func init() {
 
 // ---- shared menus ----
 
-var c03ChainIDs = []int64{1, 9000, 1337}
+// 0 is the "chain id not specified" value of the go-ethereum lineage: a transaction made for it must not be a wildcard
+var c03ChainIDs = []int64{1, 9000, 1337, 0}
 var c03Locs = []common.Location{{0, 0}, {0, 1}, {1, 0}}
 
 var (
